@@ -224,6 +224,22 @@ pub fn shell(s: &ShellSpec) -> bpaf::ShellComp {
 }
 
 /// the text a completer gets for filtering: the string form of the inner value
+thread_local! {
+    /// build every choice between alternatives with `bpaf::choice` instead of `construct!([..])`
+    pub static ALT_VIA_CHOICE: std::cell::Cell<bool> = std::cell::Cell::new(false);
+}
+
+/// `build_level` with every choice spelled `bpaf::choice(..)`
+pub fn build_level_via_choice(l: &Level) -> bpaf::OptionParser<V> {
+    ALT_VIA_CHOICE.with(|c| c.set(true));
+    let r = std::panic::catch_unwind(std::panic::AssertUnwindSafe(|| build_level(l)));
+    ALT_VIA_CHOICE.with(|c| c.set(false));
+    match r {
+        Ok(p) => p,
+        Err(e) => std::panic::resume_unwind(e),
+    }
+}
+
 pub fn completion_key(v: &V) -> String {
     match v {
         V::Str(s) => s.clone(),
@@ -289,6 +305,11 @@ pub fn build_node(n: &Node) -> BP {
                     .map(move |v| V::Alt(i, Box::new(v)))
                     .boxed()
             });
+            if ALT_VIA_CHOICE.with(|c| c.get()) {
+                // the run-time spelling of the same thing: `bpaf::choice([a, b, c])`
+                let all: Vec<BP> = it.collect();
+                return bpaf::choice(all).boxed();
+            }
             let first = it.next().unwrap();
             // this is what construct!([a, b, c]) expands to
             #[allow(deprecated)]
